@@ -1,5 +1,7 @@
 """Per-property checks.  Each function fills a core.Result; `check` turns it into evidence,
 KNOWN-FINDING / VIOLATION lines and the exit code."""
+import json
+import os
 import random
 
 from . import core, engines, plans
@@ -275,12 +277,214 @@ def c05(res, wd):
                              "model deviates from the code" % bad)
 
 
+# ---------------------------------------------------------------------------------------------
+# C06: spectators
+# ---------------------------------------------------------------------------------------------
+
+def _spec_plan(rng, frames, **over):
+    npeers = rng.choice([1, 2, 2, 3])
+    p = plans.general(rng, frames, npeers=npeers, spectators=rng.choice([1, 1, 2]), **over)
+    n = len(p["cfg"]["peers"])
+    p["cfg"]["inputs_by_frame"] = rng.choice([2, 4, 16])
+    p["cfg"]["max_behind"] = rng.choice([1, 2, 5, 10, 30])
+    p["cfg"]["catchup"] = rng.choice([1, 2, 3, 8])
+    # spectator tick rates 0.3x .. 3x and pauses up to ~80 frames (beyond the 60-slot ring)
+    for i in range(n):
+        if p["cfg"]["peers"][i]["kind"] == "spec":
+            p["tick_ms"][i] = rng.choice([6, 10, 16, 16, 24, 48])
+    p["p_pause"] = rng.choice([0.0, 0.01, 0.03])
+    p["pause_ms"] = rng.choice([200, 700, 1400])
+    p["loss"] = rng.choice([0.0, 0.05, 0.2])
+    return p
+
+
+def _host_disc_plan(rng, frames):
+    """A remote player drops (killed or explicitly disconnected) on a host that has a spectator."""
+    p = _spec_plan(rng, frames)
+    ps = p["cfg"]["peers"]
+    p2p = [i for i, x in enumerate(ps) if x["kind"] == "p2p"]
+    if len(p2p) < 2:
+        ps.insert(1, {"kind": "p2p", "locals": [p["cfg"]["players"]], "delay": 0, "host": 0})
+        p["cfg"]["players"] += 1
+        p["tick_ms"].insert(1, 16)
+        p2p = [0, 1]
+    if len(p2p) > 2:
+        # two-peer sessions only (a third peer's view of the drop is C10's business)
+        ps[:] = [ps[p2p[0]], ps[p2p[1]]] + [x for x in ps if x["kind"] == "spec"]
+        p["cfg"]["players"] = sum(len(x["locals"]) for x in ps if x["kind"] == "p2p")
+        h = 0
+        for x in ps:
+            if x["kind"] == "p2p":
+                k = len(x["locals"])
+                x["locals"] = list(range(h, h + k))
+                h += k
+        p["tick_ms"] = [16] * len(ps)
+    for x in ps:
+        if x["kind"] == "spec":
+            x["host"] = 0
+    at = rng.randrange(20, max(30, frames - 60))
+    victim_handle = ps[1]["locals"][0]
+    if rng.random() < 0.5:
+        p["kills"] = [{"p": 1, "at_frame": at}]
+    else:
+        p["discs"] = [{"p": 0, "h": victim_handle, "at_frame": at}]
+    p["loss"] = rng.choice([0.0, 0.1])
+    p["settle_ms"] = 3500
+    return p
+
+
+def c06(res, wd):
+    n, frames = sizes(res.tier, (14, 300), (100, 1200))
+    rng = random.Random(res.seed * 1000 + 60)
+    ps = [_spec_plan(rng, frames) for _ in range(n)]
+    ps += [_host_disc_plan(rng, frames) for _ in range(max(4, n // 2))]
+    outs = engines.obs_runs(res, "C06", ps, {"C06"}, wd, "c06",
+                            nontrivial=lambda st, pl: st["specAdv"] >= 50)
+    # non-interference: the same players without the spectators simulate the same confirmed timeline
+    twins = 0
+    pairs = []
+    for i, pl in enumerate(ps[:sizes(res.tier, 6, 30)]):
+        if pl.get("kills") or pl.get("discs"):
+            continue
+        q = json.loads(json.dumps(pl))
+        keep = [j for j, x in enumerate(q["cfg"]["peers"]) if x["kind"] == "p2p"]
+        q["cfg"]["peers"] = [q["cfg"]["peers"][j] for j in keep]
+        q["tick_ms"] = [q["tick_ms"][j] for j in keep]
+        q["seed"] += 17
+        pairs.append((i, pl, q))
+
+    def twin(job):
+        i, pl, q = job
+        a = os.path.join(wd, "twa_%03d.ndjson" % i)
+        b = os.path.join(wd, "twb_%03d.ndjson" % i)
+        core.drive([pl], a)
+        core.drive([q], b)
+        return i, a, b, engines.twin_compare(a, b, os.path.join(wd, "mdtw_%03d" % i))
+
+    for i, a, b, r in core.parallel(twin, pairs, n=6):
+        twins += 1
+        res.traces += 2
+        bad = {p: f for p, f in r["diff"].items() if f != -1}
+        if bad:
+            replay = core.save_replay("C06", a, 1, "twin_%03d_s%d" % (i, res.seed))
+            res.violations.append({"prop": "C06", "code": "players-simulate-differently-with-spectators",
+                                   "line": 0, "detail": bad, "family": "twin", "cls": "twin", "replay": replay})
+        else:
+            for pth in (a, b, a + ".plans.json", b + ".plans.json"):
+                try:
+                    os.remove(pth)
+                except OSError:
+                    pass
+    res.extra["twin_runs"] = twins
+    res.rule = ("spectator monitor (Monitor.tla TickSpec/SpecH): every AdvanceFrame handed to a spectator equals the "
+                "owner-side truth of that frame (Disconnected exactly beyond the host's cut-off), gapless, never beyond "
+                "the host's confirmed frame, per-call count <= catch-up rule, SpectatorTooFarBehind iff the 60-slot ring "
+                "was overrun; spectators at 0.3x..3x tick rate with pauses beyond the ring, 1-3 host-side peers, "
+                "host-side kills/explicit disconnects; plus twin runs (with / without spectators, frame-indexed inputs) "
+                "compared by Trace_Twin.tla.  non-trivial = >=50 frames replayed by spectators")
+    res.assumptions += ["the spectator session itself is not yet part of System.tla (monitor-level verdict only)"]
+
+
+# ---------------------------------------------------------------------------------------------
+# C07: peer drop detection and the survivor's timeline
+# ---------------------------------------------------------------------------------------------
+
+def _drop_plan(rng, frames):
+    """Two-peer session, one or two players per side, one side dies (or is disconnected explicitly)."""
+    la = rng.choice([1, 1, 2])
+    lb = rng.choice([1, 1, 2])
+    peers = [{"kind": "p2p", "locals": list(range(la)), "delay": rng.choice([0, 0, 1, 3]), "host": 0},
+             {"kind": "p2p", "locals": list(range(la, la + lb)), "delay": rng.choice([0, 0, 2, 4]), "host": 0}]
+    nspec = rng.choice([0, 0, 1])
+    for _ in range(nspec):
+        peers.append({"kind": "spec", "locals": [], "delay": 0, "host": 0})
+    w = rng.choice([0, 1, 2, 4, 8, 8])
+    timeout = rng.choice([600, 1000, 2000])
+    notify = rng.choice([200, 300, 500])
+    cfg = {"players": la + lb, "window": w, "sparse": rng.random() < 0.4,
+           "predictor": rng.choice(["repeat", "default"]), "desync": 0, "fps": 60,
+           "timeout": timeout, "notify": min(notify, timeout - 100), "max_behind": 10, "catchup": 2,
+           "max_delay": 8, "peers": peers, "inputs_by_frame": rng.choice([0, 4])}
+    n = len(peers)
+    at = rng.randrange(5, frames - 10)
+    p = {"seed": rng.randrange(1 << 30), "frames": frames + 200, "cfg": cfg,
+         "tick_ms": [16] * n, "jitter": rng.choice([0, 3]),
+         "lat_lo": rng.choice([2, 10, 40]), "lat_hi": rng.choice([40, 60, 120]),
+         "loss": rng.choice([0.0, 0.0, 0.1, 0.3]), "dup": 0.0, "alphabet": 4,
+         "change": rng.choice([0.3, 1.0]), "drain": True,
+         "max_ms": 60000, "settle_ms": timeout + 1500}
+    if rng.random() < 0.7:
+        p["kills"] = [{"p": 1, "at_frame": at}]
+    else:
+        p["discs"] = [{"p": 0, "h": peers[1]["locals"][-1], "at_frame": at}]
+    return p
+
+
+def c07(res, wd):
+    n = sizes(res.tier, 24, 160)
+    rng = random.Random(res.seed * 1000 + 70)
+    ps = [_drop_plan(rng, rng.choice([60, 120, 250])) for _ in range(n)]
+    engines.obs_runs(res, "C07", ps, {"C07"}, wd, "c07",
+                     nontrivial=lambda st, pl: st["discInputs"] >= 5)
+    res.rule = ("two-peer sessions (1-2 players per side, windows 0..8, delays, sparse on/off, both predictors, "
+                "with/without spectator, loss up to 30%) in which one side is killed at a random frame with packets in "
+                "flight or disconnected explicitly; Monitor.tla judges event timing against the virtual clock "
+                "(NetworkInterrupted only after notify of silence, Disconnected only after timeout, both reported at "
+                "the first poll after they were due, once) and the survivor's final timeline (real inputs up to the "
+                "cut-off, default+Disconnected after it, also for frames first simulated with predictions); "
+                "non-trivial = >=5 frames simulated with a Disconnected input")
+
+
+# ---------------------------------------------------------------------------------------------
+# C09: desync detection
+# ---------------------------------------------------------------------------------------------
+
+def c09(res, wd):
+    model_session(res, wd, "C09", [("s2_w2_desync1", {"Window": 2, "MaxFrame": 3, "DesyncInterval": 1})] +
+                  ([("s2_w1_desync2", {"Window": 1, "MaxFrame": 4, "DesyncInterval": 2}),
+                    ("s2_w2_desync1_sparse", {"Window": 2, "MaxFrame": 3, "DesyncInterval": 1, "Sparse": "TRUE"})]
+                   if res.tier == "thorough" else []), {"C09"})
+    ns, depth = sizes(res.tier, (8, 100), (60, 160))
+    engines.s2i_runs(res, "C09", wd, "g2d", {"MaxFrame": 10, "DesyncInterval": 1, "MaxSteps": depth - 10},
+                     ns, depth, {"C09"})
+    # false-alarm half: deterministic game, every interval 1..12
+    n, frames = sizes(res.tier, (12, 300), (96, 1200))
+    rng = random.Random(res.seed * 1000 + 90)
+    ps = []
+    for i in range(n):
+        fam = plans.tight if i % 3 == 0 else plans.general
+        ps.append(fam(rng, frames, cfg={"desync": 1 + (i % 12)}))
+    engines.obs_runs(res, "C09", ps, {"C09"}, wd, "c09fa",
+                     nontrivial=lambda st, pl: st["loads"] >= 5)
+    # detection half: one peer's game diverges from frame f0 on (saving not sparse, no loss)
+    det = []
+    nd = sizes(res.tier, 10, 60)
+    for i in range(nd):
+        interval = rng.choice([1, 2, 3, 4, 7, 12])
+        f0 = rng.randrange(1, 40 if res.tier == "quick" else 200)
+        p = plans.general(rng, f0 + 8 * interval + 60, npeers=2, max_locals=1,
+                          cfg={"desync": interval, "sparse": False}, loss=0.0, dup=0.0)
+        p["cfg"]["peers"][rng.randrange(2)]["corrupt_from"] = f0
+        p["p_pause"] = 0.0
+        p["settle_ms"] = 500
+        det.append(p)
+    engines.obs_runs(res, "C09", det, {"C09"}, wd, "c09det", nontrivial=lambda st, pl: st["events"] >= 1)
+    res.rule = ("false-alarm half: no DesyncDetected event in any exhaustive model run (interval 1..2), replayed TLC "
+                "schedule or random run (intervals 1..12, sparse on/off, loss/reorder, stall-heavy 'tight' timing) of a "
+                "deterministic game; detection half: a game that diverges from a random frame f0 on (non-sparse, no "
+                "loss) makes every peer report DesyncDetected for a frame > f0 no later than 3 intervals after the first "
+                "report frame, with the two checksums the games really saved (Monitor.tla EvFold/DetectV)")
+
+
 CHECKS = {
     "C01": c01,
     "C02": c02,
     "C03": c03,
     "C04": c04,
     "C05": c05,
+    "C06": c06,
+    "C07": c07,
+    "C09": c09,
 }
 
 
